@@ -5,7 +5,7 @@ set -u
 PID="$1"; KIND="$2"; DEST="$3"; shift 3
 TARGS=(); while [ $# -gt 0 ] && [ "$1" != "--" ]; do TARGS+=("$1"); shift; done; shift
 PROPS="$*"
-SRC=/tmp/seed-$PID; WT=/var/tmp/seedchk-$PID
+SRC=${SEEDSRC:-/tmp/seed-$PID}; WT=/var/tmp/seedchk-$PID
 export GOPROXY=off GOSUMDB=off GOTOOLCHAIN=local GOFLAGS=
 git -C /repo worktree remove --force "$WT" >/dev/null 2>&1
 git -C /repo worktree add -q --detach "$WT" HEAD || exit 2
